@@ -132,6 +132,15 @@ def streams(tier, rng):
         secs = int(_os.environ.get('VERIF_FUZZ_SECONDS', '240'))
         found, note = vf.fuzz_search(tables, corpus, secs, int(_os.environ.get('VERIF_SEED', '1') or 1))
         yield {'name': 'fuzz-found', 'cases': found, 'model': False, 'note': note, 'project': project, 'nontrivial': lambda c, o: c}
+    # the error response formatter on texts with quotes (the text is an exact-size allocation; judged by the sanitizer only)
+    rerr = []
+    for L in list(range(1, 40)) + [100, 200, 250, 254, 255, 256, 300]:
+        for _ in range(2 if tier == 'quick' else 12):
+            t = bytearray(rng.choice(b'abc ;') for _ in range(L))
+            for _ in range(rng.randint(1, 4)):
+                t[rng.choice([0, L - 1, rng.randrange(L)])] = 34
+            rerr.append('RERR %d %s' % (rng.choice([-113, 1234, 0]), bytes(t).hex()))
+    yield {'name': 'helpers-result-error', 'cases': rerr, 'model': False, 'nontrivial': lambda c, o: c}
     # the formatting helpers a handler may call on what it decoded (exact-size buffers; judged by the sanitizer only)
     from props import C15
     import struct as _st
